@@ -326,3 +326,22 @@ func lemma_block_no_leak(i *ignore, meta *ast.Meta) {
 //@   requires? l != nil && l.ignore != nil
 //@   requires? ctx != nil
 //@   safe
+
+// ---- C05 (named part): scope guards of restart / error / synthetic ------------------------------------
+// In a subroutine annotated with several scopes the statement is accepted exactly when EVERY one of
+// the scopes allows it (property text); the allowed sets are those the simulator enforces at run
+// time (interpreter/statement.go ProcessBlockStatement). A diagnostic is recorded iff the mode is
+// empty or has a scope outside the allowed set.
+//@ import lctx "github.com/ysugimoto/falco/v2/linter/context"
+//@ pred scopesWithin(mode int, allowed int) = mode != 0 && (mode & allowed) == mode
+//@ func (*Linter).lintRestartStatement [C05]
+//@   ensures [restart-accepted-iff-every-scope-allows C05] called("Error") == !scopesWithin(old(ctx.Mode()), lctx.RECV|lctx.HIT|lctx.FETCH|lctx.ERROR|lctx.DELIVER)
+//@ func (*Linter).lintErrorStatement [C05]
+//@   ensures [error-accepted-only-if-every-scope-allows C05] scopesWithin(old(ctx.Mode()), lctx.RECV|lctx.HIT|lctx.MISS|lctx.PASS|lctx.FETCH) || called("Error")
+//@ func (*Linter).lintSyntheticStatement [C05]
+//@   ensures [synthetic-accepted-only-if-every-scope-allows C05] scopesWithin(old(ctx.Mode()), lctx.ERROR) || called("Error")
+//@ func (*Linter).lintSyntheticBase64Statement [C05]
+//@   ensures [synthetic-accepted-only-if-every-scope-allows C05] scopesWithin(old(ctx.Mode()), lctx.ERROR) || called("Error")
+// the guard's helper is executed, not abstracted
+//@ func everyScopeIn [C05 C11]
+//@   inline
